@@ -40,6 +40,8 @@ type Scenario struct {
 	Bound     int    `json:"bound"`                // preemption bound, -1 unbounded
 	EnvGiveUp bool   `json:"env_giveup,omitempty"` // memhttp: explore the ">256KB pending" alternative
 	Opts      string `json:"opts,omitempty"`
+	// direct scenarios (no RPC): per task the operations on a shared library object
+	Tasks [][]string `json:"tasks,omitempty"`
 }
 
 func (sc *Scenario) String() string {
